@@ -130,9 +130,20 @@ def run(tier, seed):
         for ci, combo in enumerate(combos):
             lines.append({"text": text, "formats": [[n, f] for n, f in zip(names, combo)],
                           "kinds": [["evaluate"], ["compute"], ["assemble"]][ci % 3], "lang": "c" if ci % 4 else "llvm",
-                          "entry": "library", "allowed": ["Code", "NoKernelFoundError"], "diagonal": False, "broadcast": False,
-                          "leaves": 1, "sweep": True})
+                          # every seventh request of a sweep goes through the CLI: the sweeps are where the documented
+                          # refusals occur, and the CLI must turn them into exit 1 + message
+                          "entry": "cli" if ci % 7 == 3 else "library", "allowed": ["Code", "NoKernelFoundError"], "diagonal": False,
+                          "broadcast": False, "leaves": 1, "sweep": True})
             n_sweep += 1
+    # diagonal accesses through every entry point (a documented refusal; code is allowed too)
+    for text, fms in (("a(i) = b(i,i)", [("a", "d0"), ("b", "d0d1")]), ("a(i) = b(i,i)", [("a", "s0"), ("b", "s0s1")]),
+                      ("a() = b(i,i) * c(i)", [("a", ""), ("b", "d0s1"), ("c", "d0")]), ("a(i,i) = b(i)", [("a", "d0d1"), ("b", "d0")])):
+        for entry in ("library", "cli", "method"):
+            for lang in ("c", "llvm"):
+                lines.append({"text": text, "formats": [list(x) for x in fms], "kinds": ["evaluate"], "lang": lang, "entry": entry,
+                              "allowed": ["Code", "NoKernelFoundError", "DiagonalAccessError"], "diagonal": True, "broadcast": False,
+                              "leaves": 1, "sweep": True})
+                n_sweep += 1
     # the catalogue (every mechanism of the generator, several spellings) in both languages: all-dense, all-compressed
     # and two seeded format assignments each; the kinds rotate
     import random as _random
